@@ -88,6 +88,7 @@ pub fn run(ctx: &mut Ctx) {
         "C08" => {
             cfgs.retain(|c| c.cloneable);
             fam::exhaustive(ctx, "clone", &cfgs, l, false, &fam::clone_ops);
+            crate::special::c08_clone_from(ctx);
         }
         "C09" => {
             cfgs.retain(|c| c.cloneable && c.elem.needs_drop);
